@@ -457,6 +457,44 @@ enum WStep {
 
 fn build_write_script(rng: &mut Rng, w: u64) -> Vec<WStep> {
     let mut s = Vec::new();
+    if (w / 2) % 2 == 1 && w % 2 == 0 {
+        // family B (version 3 files only: a v4 FAT sector costs 1024 underlying writes to
+        // initialise, which makes the exhaustive sweep quadratic in the wrong thing): directory-sector and FAT-sector growth, resize across the cutoff in both
+        // directions, truncating re-creation, several small streams
+        for k in 0..5 {
+            s.push(WStep::OpenNew { slot: 0, path: format!("/n{k}") });
+            s.push(WStep::Write { slot: 0, len: [40usize, 64, 200, 100, 65][k] });
+            s.push(WStep::CloseHandle { slot: 0 });
+        }
+        s.push(WStep::OpenNew { slot: 1, path: "/big".into() });
+        let chunks = if w % 4 == 3 { 5 } else { 3 };
+        for k in 0..chunks {
+            s.push(WStep::Write { slot: 1, len: 1800 + 100 * k });
+            if k % 4 == 3 {
+                s.push(WStep::FlushHandle { slot: 1 });
+            }
+        }
+        s.push(WStep::FlushHandle { slot: 1 });
+        s.push(WStep::SetLen { slot: 1, n: 3000 });
+        s.push(WStep::Seek { slot: 1, to: 2990 });
+        s.push(WStep::Write { slot: 1, len: 50 });
+        s.push(WStep::FlushHandle { slot: 1 });
+        s.push(WStep::SetLen { slot: 1, n: *rng.pick(&[4096u64, 5000, 9000]) });
+        s.push(WStep::FlushHandle { slot: 1 });
+        s.push(WStep::CloseHandle { slot: 1 });
+        s.push(WStep::OpenNew { slot: 0, path: "/n2".into() }); // truncating re-creation
+        s.push(WStep::Write { slot: 0, len: 4200 });
+        s.push(WStep::FlushHandle { slot: 0 });
+        s.push(WStep::CloseHandle { slot: 0 });
+        s.push(WStep::Remove("/n4".into()));
+        s.push(WStep::Remove("/big".into()));
+        s.push(WStep::OpenNew { slot: 0, path: "/after".into() });
+        s.push(WStep::Write { slot: 0, len: 800 });
+        s.push(WStep::FlushHandle { slot: 0 });
+        s.push(WStep::CloseHandle { slot: 0 });
+        s.push(WStep::FlushFile);
+        return s;
+    }
     s.push(WStep::CreateStorage("/d".into()));
     s.push(WStep::OpenNew { slot: 0, path: "/a".into() });
     s.push(WStep::OpenNew { slot: 1, path: "/d/b".into() });
@@ -737,7 +775,7 @@ fn w_run(script: &[WStep], version: Version, faults: Vec<Fault>, rep: &mut Repor
 }
 
 pub fn run_c13(ctx: &Ctx, rep: &mut Report) {
-    let n_workloads: u64 = if ctx.quick() { ctx.nshards } else { ctx.nshards * 4 };
+    let n_workloads: u64 = if ctx.quick() { ctx.nshards } else { ctx.nshards * 6 };
     let mut i = 0;
     let mut w = ctx.shard;
     while w < n_workloads {
